@@ -11,7 +11,7 @@ ENGINES = [
      "kind_free_text": "complete Cartesian products of finite input alphabets executed on the real code and compared with an explicit oracle or metamorphic relation"},
     {"name": "fault", "path": "/verif/mc/props/C08.py", "serves_properties": ["C08"],
      "kind_free_text": "fault-point enumerator: public-API fault menu x position and sys.settrace call-level injection, snapshot oracle"},
-    {"name": "hist", "path": "/verif/mc/props", "serves_properties": ["C09", "C10", "C11", "C18", "C20"],
+    {"name": "hist", "path": "/verif/mc/props", "serves_properties": ["C03", "C09", "C10", "C11", "C18", "C20"],
      "kind_free_text": "explicit-state BFS over the real API: states rebuilt by history replay on fresh "
                        "objects, canonical form by names, invariant + reference model after every transition"},
 ]
@@ -156,5 +156,16 @@ CHECKS["C01"] = dict(
          "Tolerance table per class (1e-12 ... 5e-5, x distance^3 growth, 1e-5 next to extension lines, never above 1e-3) calibrated on "
          "the unchanged tree; cases whose reference error bound is not 10x below the tolerance are counted as oracle_inconclusive. "
          "References are cached in /verif/cache keyed by exact input (they depend only on /verif code).")
+CHECKS["C03"] = dict(
+    engine="hist", level="model_checking", design_ref="DESIGN.md §4 C03",
+    technique="exhaustive enumeration of words over rigid-motion generators applied through the real rotate/move API, covariance relation checked after every word; definitional pose check",
+    text="All words up to depth 3 (thorough 4 for four classes) over six generators (rotate about the origin with two non-commuting "
+         "rotations, about an explicit anchor, about the object's own position; two translations) are applied to one asymmetric "
+         "instance of each of 10 classes plus a flat and a nested Collection, with static, translating and rotating initial paths; "
+         "after every word B and H at 12 observers moved by the same motion must equal the rotated original field at every path index. "
+         "Depth 0: 12 constructor poses, statically and as one rotating path in a single multi-observer call, against "
+         "R B_local(R^T(obs - p)).",
+    note="rel. tolerance 1e-9; observers are >= 1e-2 from all surfaces. The relation has no external oracle, so a defect that is itself "
+         "covariant is only caught by the definitional depth-0 check.")
 _todo = "check not built yet in this session (planned, see DESIGN.md §4); nothing is claimed for it"
 NOT_APPLICABLE = [{"property_id": f"C{i:02d}", "reason": _todo} for i in range(1, 21) if f"C{i:02d}" not in CHECKS]
